@@ -324,14 +324,32 @@ def r5(ctx):
     # hardware reservation: += requirement or first normalised copy, under `if key in hardware ... hardware[key]`
     aug = [n for n in f.body_nodes() if isinstance(n, ast.AugAssign) and root_attr(n.target) == "hardware_locations"]
     first = [n for n in f.body_nodes() if isinstance(n, ast.Assign) and root_attr(n.targets[0]) == "hardware_locations"]
-    ok = (len(aug) == 1 and isinstance(aug[0].op, ast.Add) and isinstance(aug[0].value, ast.Subscript) and unparse(aug[0].value.value) == "hardware"
-          and len(first) == 1 and unparse(first[0].value) == unparse(aug[0].value) + ".normalized()"
-          and unparse(aug[0].target) == unparse(first[0].targets[0]))
+    from ..dataflow import origins as _or
+
+    def _hw_entry(e):
+        """(key expression) when e denotes the per-level requirement `hardware[K]` / `hardware.get(K)` (through temporaries / walrus)."""
+        ks = []
+        for o in _or(f, e):
+            if isinstance(o, ast.NamedExpr):
+                o = o.value
+            if isinstance(o, ast.Subscript) and unparse(o.value) == "hardware":
+                ks.append(o.slice)
+            elif isinstance(o, ast.Call) and isinstance(o.func, ast.Attribute) and o.func.attr == "get" and unparse(o.func.value) == "hardware" and o.args:
+                ks.append(o.args[0])
+            else:
+                return None
+        return ks or None
+
+    ok = len(aug) == 1 and isinstance(aug[0].op, ast.Add) and len(first) == 1
+    keys = _hw_entry(aug[0].value) if ok else None
+    ok = ok and keys is not None
+    if ok:
+        fv = first[0].value
+        ok = (isinstance(fv, ast.Call) and isinstance(fv.func, ast.Attribute) and fv.func.attr == "normalized" and _hw_entry(fv.func.value) is not None
+              and unparse(aug[0].target) == unparse(first[0].targets[0]))
     if ok:
         # the key is built from the connector of the *current* level and the location name
-        from ..dataflow import origins as _or
-
-        ks = [unparse(o) for o in _or(f, aug[0].value.slice)]
+        ks = [unparse(o) for k in keys for o in _or(f, k)]
         ok = bool(ks) and all("deployment_name" in k and ".name" in k and not k.startswith("posixpath.join(connector.") for k in ks)
     ctx.ob("R5", "reservation adds the level's requirement to hardware_locations[loc.name]", ok, func=f,
            node=aug[0] if aug else f.node, instance="reserve-add",
